@@ -13,7 +13,7 @@ from .. import contracts
 from .. import oracles as O
 from .. import probes
 from ..common import cfg_str, build_captured, ST_BY_NAME
-from ..drivers import Stepper, run_stream
+from ..drivers import Stepper, run_stream, safe_stepper
 
 PROP = "C15"
 LEVEL = "exploration"
@@ -221,6 +221,8 @@ def helper_calls(rng, n):
 
 def observer_reads(s):
     c = 0
+    if s is None:
+        return 0
     for st in ST_BY_NAME.values():
         try:
             s.uses_storage_type(st)
@@ -335,9 +337,15 @@ def hist_sequential(target, rng, length, ev):
                      rng=random.Random(rng.random()), record=True)
     ev["C15.observer_reads"] = ev.get("C15.observer_reads", 0) \
         + res.observations + res.flag_reads
-    streams = [list(res.actions or [])]
+    if res.construct_error is not None:
+        streams = [[("construct raised",
+                     type(res.construct_error).__name__)]]
+    else:
+        streams = [list(res.actions or [])]
+        if res.error is not None and res.error != "StopIteration":
+            streams[0].append(("raised", type(res.error).__name__))
     # and a second object with equal parameters, no reads
-    streams.append(_strip(Stepper(dict(target)).run()))
+    streams.append(_strip(safe_stepper(dict(target)).run()))
     return streams, live
 
 
@@ -353,8 +361,8 @@ def hist_neighbours(target, rng, ev):
             ev["neighbour_streams"] = ev.get("neighbour_streams", 0) + 1
         except Exception:
             ev["history_op_errors"] = ev.get("history_op_errors", 0) + 1
-    return [_strip(Stepper(dict(target)).run()),
-            _strip(Stepper(dict(target)).run())], None
+    return [_strip(safe_stepper(dict(target)).run()),
+            _strip(safe_stepper(dict(target)).run())], None
 
 
 def _strip(stream):
@@ -363,7 +371,7 @@ def _strip(stream):
 
 def hist_roundrobin(target, rng, length, ev):
     nb = neighbours(target, rng)
-    pool = [Stepper(dict(target)), Stepper(dict(target))]
+    pool = [safe_stepper(dict(target)), safe_stepper(dict(target))]
     for _ in range(min(6, 2 + length // 4)):
         try:
             pool.append(Stepper(rng.choice(nb)))
@@ -407,7 +415,7 @@ def hist_threads(target, rng, length, ev, nthreads):
                         Stepper(r.choice(nb)).run()
                     except Exception:
                         pass
-                got.append(_strip(Stepper(dict(target)).run()))
+                got.append(_strip(safe_stepper(dict(target)).run()))
                 if r.random() < 0.5:
                     helper_calls(r, target["n"])
         except Exception as e:
@@ -470,8 +478,8 @@ def hist_abort(target, rng, length, ev):
         if fi.fired:
             fired += 1
     ev["C15.failpoints_fired"] = ev.get("C15.failpoints_fired", 0) + fired
-    streams = [_strip(Stepper(dict(target)).run()),
-               _strip(Stepper(dict(target)).run())]
+    streams = [_strip(safe_stepper(dict(target)).run()),
+               _strip(safe_stepper(dict(target)).run())]
     return streams, None
 
 
